@@ -468,7 +468,7 @@ func fileStats(o Outcome, d map[string]int64) {
 		case "readfile", "load":
 			d[op.Op+" "+s.Load]++
 			if s.Load != "accepted" && s.Found != nil {
-				d["refused Reads that had found their file (its directory went on the search path)"]++
+				d["refused Reads that had found their file (its directory must be off the search path again)"]++
 				refusedFound = true
 			}
 			if s.Load == "accepted" && refusedFound {
